@@ -121,7 +121,7 @@ CONTRACTS = [
              raises={e: pg_failure_loses_at_most_the_node_in_progress for e in BUILD_ERRORS},
              returns=NoneT(),
              invariants={0: dict(inv=[w_grows_only, w_pending_are_queued_or_linked], havoc=pg_heap_havoc),
-                         3: [f_grows_only, f_done_are_linked, f_others_queued_or_linked]}),    # (ordinals: breadth-first)
+                         1: [f_grows_only, f_done_are_linked, f_others_queued_or_linked]}),    # (ordinals: breadth-first)
 ]
 LEMMAS = []
 
